@@ -1,4 +1,5 @@
-import MjProof.Lemmas.Spatial
+import MjProof.Lemmas.RealNum
+import MjProof.Gen.Kernels
 import Mathlib.Analysis.Real.Sqrt
 import Mathlib.Tactic.Ring
 import Mathlib.Tactic.Linarith
@@ -17,7 +18,57 @@ branches of the C code (early `return 0` outside the margin, the coincident-cent
 `mjraw_SphereSphere`, the `mjMINVAL` guard of `mju_normalize3`, `mju_clip`).
 -/
 namespace MjProof.Collide
-open MjProof MjProof.Gen MjProof.Spatial
+open MjProof MjProof.Gen
+
+/- This file deliberately does not import `MjProof.Lemmas.Spatial` (owned by C24): the few shared facts
+   (`minval`, the closed form of `mju_normalize3`) are re-proved here from the generated definitions. -/
+
+abbrev Vec3 := ℝ × ℝ × ℝ
+/-- row-major 3×3 matrix, as MuJoCo stores it -/
+abbrev Mat3 := ℝ × ℝ × ℝ × ℝ × ℝ × ℝ × ℝ × ℝ × ℝ
+
+def matDet (a : Mat3) : ℝ :=
+  match a with
+  | (a0, a1, a2, a3, a4, a5, a6, a7, a8) =>
+    a0 * (a4 * a8 - a5 * a7) - a1 * (a3 * a8 - a5 * a6) + a2 * (a3 * a7 - a4 * a6)
+
+/-- mjMINVAL = 1e-15 as the translator prints the double (`1.0000000000000001e-15`) -/
+noncomputable def minval : ℝ := 10000000000000001 / 10 ^ 31
+theorem minval_pos : 0 < minval := by unfold minval; norm_num
+theorem minval_lt_one : minval < 1 := by unfold minval; norm_num
+theorem ofSci_minval : (MjNum.ofSci 10000000000000001 true 31 : ℝ) = minval := by
+  simp only [real_ofSci, minval]; norm_num
+theorem ofSci_half : (MjNum.ofSci 5 true 1 : ℝ) = 1 / 2 := by
+  simp only [real_ofSci]; norm_num
+theorem ofSci_quarter : (MjNum.ofSci 25 true 2 : ℝ) = 1 / 4 := by
+  simp only [real_ofSci]; norm_num
+
+theorem sumsq3_nonneg (a b c : ℝ) : 0 ≤ a*a + b*b + c*c :=
+  add_nonneg (add_nonneg (mul_self_nonneg a) (mul_self_nonneg b)) (mul_self_nonneg c)
+
+theorem unit3_of_div (a b c n : ℝ) (hn : 0 < n) (hsq : n * n = a*a + b*b + c*c) :
+    a / n * (a / n) + b / n * (b / n) + c / n * (c / n) = 1 := by
+  have hne : n ≠ 0 := ne_of_gt hn
+  have e : a / n * (a / n) + b / n * (b / n) + c / n * (c / n) = (a*a + b*b + c*c) / (n * n) := by
+    field_simp
+  rw [e, ← hsq]
+  exact div_self (mul_ne_zero hne hne)
+
+/-- closed form of the generated `mju_normalize3`: (norm, (1,0,0) below mjMINVAL, else v / norm) -/
+theorem mju_normalize3_eq (v0 v1 v2 : ℝ) :
+    mju_normalize3 v0 v1 v2 =
+      (Real.sqrt (v0*v0 + v1*v1 + v2*v2),
+        if Real.sqrt (v0*v0 + v1*v1 + v2*v2) < minval then ((1 : ℝ), (0 : ℝ), (0 : ℝ)) else
+          (v0 / Real.sqrt (v0*v0 + v1*v1 + v2*v2), v1 / Real.sqrt (v0*v0 + v1*v1 + v2*v2),
+           v2 / Real.sqrt (v0*v0 + v1*v1 + v2*v2))) := by
+  simp only [mju_normalize3, real_sqrt, real_ofInt, decide_eq_true_eq, real_lt_iff, ofSci_minval]
+  split_ifs with h
+  · simp
+  · simp only [Prod.mk.injEq]; refine ⟨trivial, ?_, ?_, ?_⟩ <;> (push_cast; ring)
+
+/-- returns (norm, normalised vector) like the C function (return value, in-place result) -/
+noncomputable def normalize3 (v : Vec3) : ℝ × Vec3 :=
+  mju_normalize3 (α := ℝ) v.1 v.2.1 v.2.2
 
 /-! ### 3-vectors -/
 
@@ -39,7 +90,6 @@ theorem dot3_sub_comm (a b : Vec3) : dot3 (sub3 a b) (sub3 a b) = dot3 (sub3 b a
   simp only [dot3, sub3]; ring
 theorem dist3_comm (a b : Vec3) : dist3 a b = dist3 b a := by
   simp only [dist3, norm3, dot3_sub_comm a b]
-theorem normSq3_eq_dot3 (a : Vec3) : normSq3 a = dot3 a a := rfl
 
 /-- result record of a raw collider as the translator scalarises it:
     (return value, dist, normal[0..2], pos[0..2], tangent[0..2]) -/
@@ -185,11 +235,21 @@ noncomputable def capsulePoint (c1 p2 a : Vec3) (len : ℝ) : Vec3 :=
 theorem sphereCapsule_eq (con : PreCon) (margin : ℝ) (c1 z1 : Vec3) (r1 : ℝ) (p2 a : Vec3) (r2 len : ℝ) :
     sphereCapsule con margin c1 z1 r1 p2 a r2 len =
       sphereSphere con margin c1 z1 r1 (capsulePoint c1 p2 a len) a r2 := by
+  rw [sphereSphere_eq]
   obtain ⟨c10, c11, c12⟩ := c1; obtain ⟨p20, p21, p22⟩ := p2
   obtain ⟨z10, z11, z12⟩ := z1; obtain ⟨a0, a1, a2⟩ := a
   obtain ⟨cd, ⟨cn0, cn1, cn2⟩, ⟨cp0, cp1, cp2⟩, ⟨ct0, ct1, ct2⟩⟩ := con
-  simp only [sphereCapsule, sphereSphere, mjraw_SphereCapsule, mjraw_SphereSphere, capsulePoint, clip,
-    add3, scl3, sub3, dot3, mju_dot3, real_lt_iff, real_sqrt, real_ofInt, decide_eq_true_eq, ofSci_minval]
+  simp only [sphereCapsule, mjraw_SphereCapsule, mju_dot3, ssNormal, normalize3, sub3, cross3, dot3, add3,
+    scl3, mkCon, PreCon.unchanged, capsulePoint, clip, real_sqrt, real_ofInt, decide_eq_true_eq, real_lt_iff,
+    ofSci_minval]
+  generalize (if a0 * (c10 - p20) + a1 * (c11 - p21) + a2 * (c12 - p22) < -len then -len
+    else if len < a0 * (c10 - p20) + a1 * (c11 - p21) + a2 * (c12 - p22) then len
+    else a0 * (c10 - p20) + a1 * (c11 - p21) + a2 * (c12 - p22)) = x
+  by_cases h0 : (margin + r1 + r2) * (margin + r1 + r2) <
+      (c10 - (a0 * x + p20)) * (c10 - (a0 * x + p20)) + (c11 - (a1 * x + p21)) * (c11 - (a1 * x + p21)) +
+        (c12 - (a2 * x + p22)) * (c12 - (a2 * x + p22)) <;>
+  by_cases h1 : (mju_normalize3 (a0 * x + p20 - c10) (a1 * x + p21 - c11) (a2 * x + p22 - c12)).1 < minval <;>
+  simp [h0, h1]
 
 /-! ### `mju_clampVec` (n = 3) -/
 
